@@ -24,7 +24,7 @@ RULE = ("random-content NP1 / NP2.4 recordings (bin and cbin) with spike trains 
         "peak channels 0 and 383; chunk sizes {500, 1000, 3000, 10000}; worker counts 1..8; preprocess_steps=[] (only then can a waveform equal "
         "the source). Non-trivial: a unit with more than max_wf valid spikes and a spike within one window of a chunk boundary; distinct = "
         "distinct (kind, container, chunk size, workers, max_wf, seed)")
-ASSUMPTIONS = ["spike times are sorted and distinct within a unit (so 'distinct spikes' is observable through the sample column)",
+ASSUMPTIONS = ["spike times are sorted; a spike is identified by (sample, peak channel): a unit may hold two spikes on one sample (double detection)",
                "compressed inputs are always given a scratch_dir (see DESIGN.md section 5 C13 harness note)",
                "neighbourhood = sites within 200 um of the peak site in the reader's (sorted) channel order"]
 REQUIRED = {"extractions": 6, "rows_compared": 300, "row_sets_exactly_once": 3, "orders_executed": 6, "loader_checks": 3, "units_counted": 20}
@@ -82,10 +82,17 @@ def make_input(rng, d, chunk, max_wf, kind=None, ns=None):
         t = np.unique(np.r_[t, rng.choice(special, int(rng.integers(2, 8)))].astype(np.int64))
         if mode == "few":       # spikes exactly ON the margins are not 'farther than the margins': they must not be counted nor extracted
             t = np.unique(np.r_[t, lo, hi])
-        times.append(t)
-        clus.append(np.full(t.size, 3 + 2 * u))
         pk = rng.integers(0, rec.n, t.size)
         pk[rng.random(t.size) < 0.15] = rng.choice([0, rec.n - 1])
+        if u % 3 == 1 and t.size >= 2:
+            # double detections: two spikes of ONE unit on the same sample, on different peak channels - two spikes, two rows
+            dup = rng.choice(t.size, int(rng.integers(1, 3)), replace=False)
+            t = np.r_[t, t[dup]]
+            pk = np.r_[pk, (pk[dup] + 1 + rng.integers(0, 5, dup.size)) % rec.n]
+            o2 = np.argsort(t, kind="stable")
+            t, pk = t[o2], pk[o2]
+        times.append(t)
+        clus.append(np.full(t.size, 3 + 2 * u))
         chans.append(pk)
     times, clus, chans = np.concatenate(times), np.concatenate(clus), np.concatenate(chans)
     # spike #0 of the sorted train is a VALID spike (the very first spike of the session can be a good one)
@@ -131,7 +138,7 @@ def judge_output(res, out, sr, rec, times, clus, chans, max_wf, label, off=OFF, 
             key = "table:unit-count:spike-index-0-dropped" if (first_is_u and len(rows) == want - 1) else "table:unit-count"
             res.violation(key, f"{label}: unit {u} has {nv} valid spikes, max_wf={max_wf}: {len(rows)} waveforms saved, expected {want}")
         res.count("oracle_evaluations")
-        res.check(rows["sample"].is_unique, "table:duplicate-spike", f"{label}: unit {u}: the same spike extracted twice")
+        res.check(not rows.duplicated(subset=["sample", "peak_channel"]).any(), "table:duplicate-spike", f"{label}: unit {u}: the same spike extracted twice")
         ok_members = np.isin(rows["sample"].to_numpy(), times[valid & (clus == u)])
         res.check(ok_members.all(), "table:spike-not-valid", f"{label}: unit {u}: a saved row is not one of the unit's valid spikes")
     # rows are grouped by cluster in ascending order, time-ordered within
